@@ -141,6 +141,7 @@ class Scheduler:
         self._parked_regions = 0
         f = spec.get('focus')
         self._focus = set(f) if f is not None else None
+        self._ext_p = spec.get('ext_p', 0)
         self._focus_cps = sorted(spec.get('focus_cps', []))
         self._focus_n = 0
         self.liveness = []        # records of step-budget overruns
@@ -263,6 +264,34 @@ class Scheduler:
         """A pre-emption point raised by a simulated seam (file system, recorder)."""
         self._point(EXT, None, tag)
 
+    def is_client_thread(self):
+        st = self.cur
+        return st is not None and st.thread is threading.current_thread()
+
+    def yield_blocked(self, tag):
+        """The running client cannot proceed (a simulated lock is held by a parked client): hand the baton to another
+        runnable client, chosen by the policy's generator (or the recorded schedule). The caller retries afterwards."""
+        st = self.cur
+        if st is None or st.thread is not threading.current_thread():
+            return False
+        others = self._runnable_others(st)
+        if not others:
+            raise core.HarnessError(f'simulated deadlock: client {st.idx} blocked on {tag} and nobody else can run')
+        self.gstep += 1
+        target = None
+        if self.policy == 'explicit':
+            if self._exp_i < len(self._explicit) and self._explicit[self._exp_i][0] == self.gstep:
+                g, to = self._explicit[self._exp_i]
+                self._exp_i += 1
+                if to < len(self.threads) and not self.threads[to].done and self.threads[to] is not st:
+                    target = self.threads[to]
+            if target is None:
+                self.divergence += 1
+        if target is None:
+            target = others[self.rng.randrange(len(others))] if self.policy != 'serial' else others[0]
+        self._switch(st, target, EXT, None, 'blocked:' + tag)
+        return True
+
     def _point(self, kind, code, pos):
         st = self.cur
         if st is None or st.thread is not threading.current_thread():
@@ -282,7 +311,15 @@ class Scheduler:
                     for reg in other.regions:
                         k = reg + '|' + cname
                         self.overlaps[k] = self.overlaps.get(k, 0) + 1
-        target = self._decide(st, cname)
+        target = None
+        if kind == EXT and self._ext_p and self.policy not in ('serial', 'explicit'):
+            # simulated I/O, recorder calls and module top-level code are where real systems block: pre-empt there more often
+            if self.rng.random() < self._ext_p:
+                others = self._runnable_others(st)
+                if others:
+                    target = others[self.rng.randrange(len(others))]
+        if target is None:
+            target = self._decide(st, cname)
         if target is not None and target is not st:
             self._switch(st, target, kind, code, pos)
 
